@@ -72,10 +72,19 @@ def run(chk):
                     P.run_auto_numeric(dict(c, root=v, phi_num=rng.choice([0, 1, 2, 3])), ae)
                 else:
                     P.run_auto(dict(c, root=v), ae)
-            t = P.run_auto(c, ae)
+            pa = rng.random() if (h % 2 and rng.random() < 0.6) else None      # the judged call was abandoned part-way once before
+            t = P.run_auto(dict(c, pre_abort=pa) if pa is not None else c, ae)
             t["what"] = "shared-evaluator"
             t["case"] = dict(c, history=h)
             traces.append(t)
+    # crash points on fresh evaluators: every fifth case is first abandoned part-way, then asked again (same evaluator, same graph object)
+    for i, c in enumerate(cases[::5]):
+        t = P.run_auto(dict(c, pre_abort=[0.03, 0.3, 0.6, 0.9][i % 4]))
+        t["what"] = "after-abandoned-call"
+        traces.append(t)
+    chk.extra["evaluations_judged_after_an_abandoned_evaluation"] = sum(1 for t in traces if t.get("pre_abort_outcome") == "aborted")
+    from .. import crash
+    crash.mc(chk)
     chk.add_sample(traces[20]); chk.add_sample(traces[-1])
     P.judge(chk, traces, "C15")
     chk.nontrivial = len({str(t["E"]) + str(t["root"]) for t in traces if len(t["E"]) >= 3})
